@@ -16,7 +16,7 @@ cd $WT
 cp $S/demo_test.go $WT/$DEMO
 echo "== demo without patch: $RUN" >> $LOG
 ( $RUN -count=1 ) >> $LOG 2>&1; A=$?
-git apply $S/patch.diff >> $LOG 2>&1 || { echo "CONFIRM $ID: patch does not apply"; exit 3; }
+git apply $S/patch.diff >> $LOG 2>&1 || patch -p1 -s < $S/patch.diff >> $LOG 2>&1 || { echo "CONFIRM $ID: patch does not apply"; exit 3; }
 echo "== demo with patch" >> $LOG
 ( $RUN -count=1 ) >> $LOG 2>&1; B=$?
 rm -f $WT/$DEMO
